@@ -29,10 +29,10 @@ def corpus_file():
 
 
 def hexsrc(line):
-    m = re.match(r"^\((?:lex|ops) ([0-9a-f]+|-)", line)
+    m = re.match(r"^\((?:lex|ops) \(h([0-9a-f ]*)\)", line)
     if not m:
         return None
-    return b"" if m.group(1) == "-" else bytes.fromhex(m.group(1))
+    return bytes.fromhex(m.group(1).replace(" ", ""))
 
 
 def show(line):
